@@ -64,6 +64,16 @@ def install():
 
     # ---- Tx.check_solution vs reference interpreter ----------------------------------------------
     orig_cs = TxMod.Tx.check_solution
+    # the tests name verification flags through pycoin.satoshi.flags.VERIFY_<name>; the reference has Core's bit positions
+    from pycoin.satoshi import flags as _pyflags
+    flag_pairs = [(getattr(_pyflags, "VERIFY_" + n), v) for n, v in RS.FLAG_NAMES.items() if v and hasattr(_pyflags, "VERIFY_" + n)]
+
+    def ref_flags(f):
+        r = 0
+        for theirs, ours in flag_pairs:
+            if f & theirs:
+                r |= ours
+        return r
 
     def check_solution(self, tx_in_idx, *a, **kw):
         err = None
@@ -76,8 +86,7 @@ def install():
             if (err is None or isinstance(err, ScriptError)) and _plain(self) and not kw.get("traceback_f") and \
                     (flags is None or isinstance(flags, int)) and tx_in_idx < len(self.unspents or []) and \
                     self.unspents[tx_in_idx] is not None and not self.is_coinbase():
-                if flags is None:
-                    flags = RS.P2SH | RS.WITNESS
+                flags = RS.P2SH | RS.WITNESS if flags is None else ref_flags(flags)
                 if RS.flags_permitted(flags):
                     rt = _ref_tx(self)
                     u = self.unspents[tx_in_idx]
